@@ -907,6 +907,7 @@ CONSTANTS
  SelfSub = %s
  WithAttacker = %s
  MaxSteps = %d
+ WillKind = "%s"
 INVARIANTS TypeOK EmitFull
 """
 TEARDOWN_CFG = """SPECIFICATION Spec
@@ -925,9 +926,11 @@ PROPERTIES TornDown CloseReturns
 
 
 def faults_run(v, pid, plan):
-    for cross, selfsub, att, d in plan:
-        name = "faults-%s-%s-%s-%d" % (cross, selfsub, att, d)
-        r = core.cached_tlc(name, "Faults", FAULTS_CFG % (cross, selfsub, att, d), workers=1, timeout=600)
+    for item in plan:
+        cross, selfsub, att, d = item[:4]
+        wk = item[4] if len(item) > 4 else "none"
+        name = "faults-%s-%s-%s-%d%s" % (cross, selfsub, att, d, "" if wk == "none" else "-will-" + wk)
+        r = core.cached_tlc(name, "Faults", FAULTS_CFG % (cross, selfsub, att, d, wk), workers=1, timeout=600)
         v.tlc(name, r)
         scen = core.behaviours(r.lines)
         results = core.run_sharded(["faults", "-own", pid], scen, timeout=2400, died_is_result=True)
@@ -969,7 +972,9 @@ def c16(tier):
         r = core.cached_tlc(name, "MCTeardown", cfg, workers=8, timeout=2400)
         v.tlc(name, r)
     faults_run(v, "C16", [("FALSE", "FALSE", "FALSE", 3 if not thorough else 4), ("TRUE", "FALSE", "FALSE", 3 if not thorough else 4),
-                          ("FALSE", "TRUE", "FALSE", 4 if not thorough else 5)])
+                          ("FALSE", "TRUE", "FALSE", 4 if not thorough else 5),
+                          ("FALSE", "FALSE", "FALSE", 2 if not thorough else 3, "small"), ("FALSE", "FALSE", "FALSE", 2 if not thorough else 3, "big"),
+                          ("TRUE", "FALSE", "FALSE", 2 if not thorough else 3, "small")])
     v.cov["rule"] = ("TLC: leads-to 'ended ~> torn down' and 'Server.Close ~> returned' under fairness on the Teardown specification (goroutine life cycles, ring capacities, "
                      "fan-out that blocks on a full open ring, will fan-out inside teardown). Replay: every fault sequence of bounded length enumerated by TLC from Faults (bursts of 6 KB "
                      "publishes into 16 KiB rings, peers that stop reading, DISCONNECT / cut / malformed / oversized packet, Server.Close, both orders of ending) on a real broker: "
